@@ -72,7 +72,7 @@ std::string checkValue(T v, char gc, bool heapBuffers) {
       return std::string("int2string() returned \"") + s + "\", expected \"" + plain + "\"";
     std::string g = cf::grouped_int2string(v, gc);
     if (static_cast<int>(g.size()) != glen || memcmp(g.data(), grouped, glen) != 0)
-      return std::string("grouped_int2string() returned \"") + g + "\", expected \"" + grouped + "\"";
+      return std::string("grouped_int2string() returned \"") + g + "\" (length " + std::to_string(g.size()) + "), expected \"" + grouped + "\" (length " + std::to_string(glen) + ", group character code " + std::to_string(static_cast<int>(static_cast<unsigned char>(gc))) + ")";
   }
   // buffer variants: exactly len+1 bytes between canaries
   {
@@ -174,7 +174,7 @@ rc::Gen<Case> genCase() {
     bool neg = typeSigned(c.type) && *rc::gen::arbitrary<bool>();
     c.bits = neg ? (~mag + 1) : mag;
     if (nb < 64) c.bits &= (1ULL << nb) - 1;
-    c.gc = *rc::gen::weightedOneOf<int>({{3, just<int>('\'')}, {2, just<int>(',')}, {5, range<int>(32, 126)}});
+    c.gc = *rc::gen::weightedOneOf<int>({{3, just<int>('\'')}, {2, just<int>(',')}, {5, range<int>(32, 126)}, {2, range<int>(0, 255)}, {1, just<int>(0)}});
     return c;
   });
 }
@@ -184,11 +184,11 @@ struct Counter { uint64_t evals = 0, nontrivial = 0; };
 
 int failAt(Mode<Case> &m, int type, uint64_t bits, char gc, const std::string &msg) {
   Case c;
-  c.type = type; c.bits = bits; c.gc = gc;
+  c.type = type; c.bits = bits; c.gc = static_cast<unsigned char>(gc);
   return m.fail(c, std::string(kTypeNames[type]) + " bits=" + std::to_string(bits) + ": " + msg);
 }
 
-// all values of the 8 and 16 bit types, 4 group characters each (+ all 95 printable for the 8 bit types)
+// all values of the 8 and 16 bit types, 4 group characters each (+ all 256 char values, NUL included, for the 8 bit types)
 int enumSmall(Mode<Case> &m) {
   auto &st = stats();
   const char gcs[] = {'\'', ',', '.', ' '};
@@ -201,7 +201,7 @@ int enumSmall(Mode<Case> &m) {
         if (!msg.empty()) return failAt(m, type, b, gc, msg);
       }
       if (type < 2 || b % 257 == 0)
-        for (int gc = 32; gc < 127; ++gc) {
+        for (int gc = 0; gc < 256; ++gc) {
           std::string msg = checkBits(type, b, static_cast<char>(gc), false);
           ++st.evaluations;
           if (!msg.empty()) return failAt(m, type, b, static_cast<char>(gc), msg);
@@ -237,12 +237,12 @@ std::vector<uint64_t> boundarySet(int type) {
   return out;
 }
 
-// boundaries of the 32 and 64 bit types (all 95 group characters), heap buffers when ASan is on
+// boundaries of the 32 and 64 bit types (all 256 group characters, NUL and the non-ASCII ones included), heap buffers when ASan is on
 int enumBoundaries(Mode<Case> &m) {
   auto &st = stats();
   for (int type = 4; type < 8; ++type) {
     for (uint64_t b : boundarySet(type)) {
-      for (int gc = 32; gc < 127; ++gc) {
+      for (int gc = 0; gc < 256; ++gc) {
         std::string msg = checkBits(type, b, static_cast<char>(gc), kAsan && (gc % 16 == 0));
         ++st.evaluations;
         if (!msg.empty()) return failAt(m, type, b, static_cast<char>(gc), msg);
